@@ -1524,6 +1524,20 @@ def m_combinator(kind, which):
     return m
 
 
+def m_option_cloned(eng, st, args, info):
+    """Option<&T>::cloned / copied: Some(&x) -> Some(x)"""
+    x = args[0]
+    out = []
+    for s2, v in _fork_on_discr(eng, st, x, [('None', 0), ('Some', 1)]):
+        if v == 'Some':
+            p = variant_payload(x, 'Some')
+            p = p[1][1] if (p[0] == 'ref' and p[1][0] == 'K') else ('der', p)
+            out.append((s2, mk_adt(OPTION, 'Some', [('0', p)])))
+        else:
+            out.append((s2, mk_adt(OPTION, 'None', [])))
+    return out
+
+
 def m_eq(eng, st, args, info):
     a = _deref_arg(eng, st, args[0])
     b = _deref_arg(eng, st, args[1])
@@ -1765,6 +1779,10 @@ DEFAULT_MODELS = {
     'std::option::Option::<T>::map': m_combinator('option', 'map'),
     'std::result::Result::<T, E>::map': m_combinator('result', 'map'),
     'std::result::Result::<T, E>::map_err': m_combinator('result', 'map_err'),
+    'std::option::Option::<&T>::cloned': m_option_cloned,
+    'std::option::Option::<&T>::copied': m_option_cloned,
+    'std::option::Option::<&mut T>::cloned': m_option_cloned,
+    'std::option::Option::<&mut T>::copied': m_option_cloned,
     'std::option::Option::<T>::map_or': m_combinator('option', 'map_or'),
     'std::option::Option::<T>::map_or_else': m_combinator('option', 'map_or_else'),
     'std::option::Option::<T>::and_then': m_combinator('option', 'and_then'),
